@@ -671,9 +671,26 @@ def plateau_oracle(spec):
     dv_before = {t: float(corr.content[t][0].dvalue) for t in idx} if (method == 'fit' and spec['gamma'] != 'auto') else None
     what = 'plateau(%s, method=%r)' % ([a, b] if via in ('arg', 'arg_over_prange') else 'prange=%r' % ([a, b],), method)
     buf = io.StringIO()
-    try:
+    rng_arg = [a, b]
+    prange_before = None if getattr(corr, 'prange', None) is None else list(corr.prange)
+
+    def call_plateau():
         with contextlib.redirect_stdout(buf):
-            res = corr.plateau([a, b], method=method, **kw) if via in ('arg', 'arg_over_prange') else corr.plateau(method=method, **kw)
+            return corr.plateau(rng_arg, method=method, **kw) if via in ('arg', 'arg_over_prange') else corr.plateau(method=method, **kw)
+    try:
+        res = call_plateau()
+        # the range belongs to the caller: the list handed over and the stored prange are the same afterwards, and a second
+        # call with the same objects gives the same plateau
+        require(rng_arg == [a, b], what + ' changed the range list it was given to %r' % (rng_arg,))
+        require((None if getattr(corr, 'prange', None) is None else list(corr.prange)) == prange_before,
+                what + ' changed the stored plateau range from %r to %r' % (prange_before, getattr(corr, 'prange', None)))
+        if isinstance(res, pe.Obs):
+            res_again = call_plateau()
+            require(isinstance(res_again, pe.Obs) and abs(float(res_again.value) - float(res.value)) <= 1e-9 * max(abs(float(res.value)), 1e-300),
+                    what + ': a second call with the same range object gives %r, the first gave %r'
+                    % (float(getattr(res_again, 'value', float('nan'))), float(res.value)))
+    except Violation:
+        raise
     except Exception as e:
         if idx:
             raise Violation('%s raised %s: %s although timeslice(s) %r of the range are defined' % (what, type(e).__name__, e, idx[:6])) from e
